@@ -37,6 +37,13 @@ def main():
         # evidence files written while a seeded defect was applied are not evidence about the unchanged tree
         subprocess.run(["git", "-C", ROOT, "checkout", "--", "evidence"], capture_output=True)
     json.dump(out, open(os.path.join(sdir, "last_run.json"), "w"), indent=1)
+    rp = os.path.join(sdir, "runs.json")
+    runs = json.load(open(rp)) if os.path.exists(rp) else []
+    verif_commit = subprocess.run(["git", "-C", ROOT, "rev-parse", "--short", "HEAD"], capture_output=True, text=True).stdout.strip()
+    for o in out:
+        o["verif_commit"] = verif_commit
+        runs = [r for r in runs if not (r["check"] == o["check"] and r["tier"] == o["tier"])] + [o]
+    json.dump(runs, open(rp, "w"), indent=1)
     return 0
 if __name__ == "__main__":
     sys.exit(main())
